@@ -176,7 +176,14 @@ class RollbackSem(Semantics):
 
     def _facts_assign(self, facts: set, st: ast.stmt) -> set:
         names = {n.id for n in walk_local(st) if isinstance(n, ast.Name) and isinstance(n.ctx, ast.Store)}
-        facts = {(k, v) for k, v in facts if not any(k == n or k == k_none(n) for n in names)}
+        copied = set()
+        if isinstance(st, (ast.Assign, ast.AnnAssign)) and isinstance(getattr(st, "value", None), ast.Name):
+            tg = st.targets[0] if isinstance(st, ast.Assign) and len(st.targets) == 1 else getattr(st, "target", None)
+            if isinstance(tg, ast.Name):  # x = y : what is known about y holds for x
+                copied = {(tg.id, v) for k, v in facts if k == st.value.id} | {(k_none(tg.id), v) for k, v in facts if k == k_none(st.value.id)}
+                if st.value.id in self.pending:
+                    self.pending[tg.id] = self.pending[st.value.id]
+        facts = {(k, v) for k, v in facts if not any(k == n or k == k_none(n) for n in names)} | copied
         if isinstance(st, ast.Assign) and len(st.targets) == 1 and isinstance(st.targets[0], ast.Name) and isinstance(st.value, ast.Constant) \
                 and isinstance(st.value.value, bool):
             facts.add((st.targets[0].id, st.value.value))
@@ -263,7 +270,7 @@ OPS = [
 
 def r_rollback(ck: Checker) -> None:
     c = ck.repo.cls(LNODE, CLS)
-    methods = {st.name: st for st in c.node.body if isinstance(st, ast.FunctionDef)}
+    methods = {st.name: ck.repo.func(LNODE, f"{CLS}.{st.name}").node for st in c.node.body if isinstance(st, ast.FunctionDef) and st.name in SUMMARY_CONFIRM}
     for name, want in SUMMARY_CONFIRM.items():
         fn = methods.get(name)
         if fn is None:
